@@ -6,6 +6,7 @@ package main
 
 import (
 	"fmt"
+	"golang.org/x/tools/go/ssa"
 	"strings"
 )
 
@@ -45,7 +46,16 @@ func runC15(cx *Ctx, r *Report) {
 		r.toolErr("expected 6 mt message handlers, found %d", len(entries))
 	}
 	perEntry := map[string][]*mtDelta{}
+	type zeroDel struct {
+		ev    *Event
+		facts []FactT
+	}
+	var zeroDels []zeroDel
 	over := cx.forEachEvent(entries, nil, func(e *Entry, w *Walker, ev *Event) {
+		if ev.Kind == "store.delete" && (hasPrefix(ev, mtBalance) || hasPrefix(ev, mtSupply)) {
+			zeroDels = append(zeroDels, zeroDel{ev, w.FactsAt(ev.Fr, ev.Site)})
+			return
+		}
 		if ev.Kind != "store.set" {
 			return
 		}
@@ -128,6 +138,35 @@ func runC15(cx *Ctx, r *Report) {
 	})
 	for _, o := range over {
 		r.toolErr("frame budget exceeded for %s", o)
+	}
+	// "store old−amount, or delete the entry when that is zero": the Delete under the same
+	// key, in the same activation, on the (old−amount == 0) side of the branch whose other
+	// side holds the Set, is part of the same logical update. Any other Delete of a
+	// balance or supply record drops value and is reported.
+	defer func() { logicalAlternatives = map[ssa.Instruction][]ssa.Instruction{} }()
+	for _, zd := range zeroDels {
+		matched := false
+		for _, ds := range perEntry {
+			for _, d := range ds {
+				if d.ev.Fr != zd.ev.Fr || d.op != "-" || d.key.LooseString() != zd.ev.Args[0].LooseString() {
+					continue
+				}
+				zero := "(" + "(" + d.old.LooseString() + " - " + d.amt.LooseString() + ")" + " == 0)"
+				if _, ok := hasFact(zd.facts, true, zero); !ok {
+					continue
+				}
+				if _, ok := hasFact(d.w.FactsAt(d.ev.Fr, d.ev.Site), false, zero); !ok {
+					continue
+				}
+				matched = true
+				logicalAlternatives[d.ev.Site] = append(logicalAlternatives[d.ev.Site], zd.ev.Site)
+			}
+		}
+		what := "balance"
+		if hasPrefix(zd.ev, mtSupply) {
+			what = "supply"
+		}
+		r.check(matched, "zero-delete", zd.ev.Fr.String()+"|"+what, zd.ev.Pos(cx), "the "+what+" entry is deleted only where the subtraction leaves exactly zero (the other side stores the difference)", "a "+what+" record is deleted at "+zd.ev.Pos(cx)+" without being the zero case of a guarded subtraction: the holder's amount disappears")
 	}
 	// pairing per entry
 	for _, name := range sortedKeys(perEntry) {
